@@ -14,6 +14,7 @@ vars == <<i>>
 W(r, fam, name, ok) == IF fam \in ToSet(r.want) /\ ~ok THEN {name} ELSE {}
 Space(s) == [shape |-> s.shape, types |-> ToSet(s.types), colors |-> ToSet(s.colors)]
 FanOf(r) == IF r.fankey = "" THEN <<>> ELSE FanTable[r.fankey]
+Occluding(f) == f \in {"partially_occluded", "raytracing"}
 Deterministic(f) == f \in {"fully_transparent", "partially_occluded", "raytracing"}
 
 \* an observation record: state, area, function, the code's observation
@@ -33,6 +34,14 @@ ObsFails(r) ==
                     \A c \in GPositions(view) :
                        /\ (c \in AlwaysLit(view, fan) => Cell(r.ob.grid, c) = Cell(view, c))
                        /\ (c \notin Raytracing(view, fan) => Cell(r.ob.grid, c) = Hidden))
+          \* C06 on the observation itself (views too large for VisTable): the shown cells are the visible in-world
+          \* cells, so the agent's own cell is shown and every shown cell hangs on a chain of shown transparent cells
+          \cup W(r, "C06", "C06.self",
+                 (Occluding(r.fname) /\ ObsShapeOK(r.ob, A) /\ InGrid(view, ViewAgentPos(A))) =>
+                    Cell(r.ob.grid, ViewAgentPos(A)) # Hidden)
+          \cup W(r, "C06", "C06.chain",
+                 (Occluding(r.fname) /\ ObsShapeOK(r.ob, A) /\ InGrid(view, ViewAgentPos(A))) =>
+                    ChainConnected(view, {c \in GPositions(view) : Cell(r.ob.grid, c) # Hidden}, ViewAgentPos(A)))
           \cup W(r, "DRIFT", "DRIFT.obs", Deterministic(r.fname) => r.ob = Obs(r.fname, r.st, A, fan))
 
 \* a metamorphic pair: st2 is st with the world cell `cell` replaced; that cell is
